@@ -410,9 +410,11 @@ Proof.
     rewrite app_nil_r, rev_involutive, decode_type by assumption.
     rewrite (run_scan true V (mk_pst false [] T [] rdns) false).
     + cbn [p_seg p_ty p_attrs p_rdns]. now rewrite app_nil_r.
-    + cbn [p_esc]. unfold V, val_seg. rewrite !scan_app, scan_spaces, scan_enc_value. apply scan_spaces.
+    + cbn [p_esc]. unfold V, val_seg. rewrite scan_app, scan_spaces. cbv beta iota.
+      rewrite scan_app, scan_enc_value. cbv beta iota. apply scan_spaces.
     + cbn [p_ty]. destruct T; [congruence|reflexivity].
-  - cbn [p_esc]. rewrite !scan_app, scan_spaces, scan_type by assumption. apply scan_spaces.
+  - cbn [p_esc]. rewrite scan_app, scan_spaces. cbv beta iota.
+    rewrite scan_app, scan_type by assumption. cbv beta iota. apply scan_spaces.
   - reflexivity.
 Qed.
 
@@ -482,11 +484,15 @@ Lemma finish_render : forall d rdns, d <> [] ->
 Proof.
   induction d as [|[sty a] d IH]; intros rdns Hne Hw Hs; [congruence|].
   cbn [map forallb snd] in Hw, Hs. apply andb_true_iff in Hw, Hs. destruct Hw as [Hw1 Hw2], Hs as [Hs1 Hs2].
-  cbn [render_bytes]. destruct d as [|sb d'].
-  - unfold finish_run. rewrite <- (app_nil_r (render_attr (sty, a))), run_attr by assumption.
+  destruct d as [|sb d'].
+  - change (render_bytes [(sty, a)]) with (render_attr (sty, a)).
+    unfold finish_run. rewrite <- (app_nil_r (render_attr (sty, a))), run_attr by assumption.
     cbn [run]. now apply finish_attr.
-  - unfold finish_run. rewrite run_attr by assumption. cbn [app]. rewrite sep_step by assumption.
-    fold (finish_run (mk_pst false [] [] [] ([written (sty, a)] :: rdns)) (render_bytes (sb :: d'))).
+  - change (render_bytes ((sty, a) :: sb :: d')) with (render_attr (sty, a) ++ [sep_of sty] ++ render_bytes (sb :: d')).
+    unfold finish_run. rewrite run_attr by assumption. cbn [app]. rewrite sep_step by assumption.
+    change (match run (mk_pst false [] [] [] ([written (sty, a)] :: rdns)) (render_bytes (sb :: d')) with
+            | SOk st' => finish st' | SErr => PErr | SHex => PUnsupported end)
+      with (finish_run (mk_pst false [] [] [] ([written (sty, a)] :: rdns)) (render_bytes (sb :: d'))).
     rewrite IH; [|discriminate|assumption|assumption]. cbn [rev map]. now rewrite <- app_assoc.
 Qed.
 
@@ -671,7 +677,7 @@ Proof.
     assert (F : forall f, In f mandatory -> String.eqb (lookup_default f (rev (map snd d))) "" = false).
     { intros f Hin. rewrite forallb_forall in Hm. specialize (Hm f Hin).
       destruct (lookup f (map snd d)) as [v|] eqn:L; [|discriminate].
-      unfold lookup_default. rewrite (lookup_rev _ _ _ Hn L).
+      pose proof (lookup_rev _ _ _ Hn L) as R. unfold lookup_default. unfold attr in *. rewrite R.
       apply lookup_In' in L. rewrite forallb_forall in Ha. specialize (Ha _ L).
       destruct (attr_wf_parts _ Ha) as (_ & _ & _ & H4). cbn [snd] in H4.
       destruct v; [now elim H4|reflexivity]. }
